@@ -199,3 +199,140 @@ def stub_normalizer(fn=None):
     f = fn or (lambda s: s)
     wn._add.normalize_form = f
     wn._core.normalize_form = f
+
+
+# ---------------------------------------------------------------------------
+# fault injection shared by the model and the real database
+
+class Boom(Exception):
+    """Injected failure (an ordinary exception)."""
+
+
+class HardBoom(BaseException):
+    """Injected failure that is not an Exception (like KeyboardInterrupt from a progress
+    handler)."""
+
+
+class Faults:
+    """Counts the calls wn makes to execute()/executemany() and to the progress handler;
+    the k-th one raises.  Same counting in both modes."""
+
+    def __init__(self):
+        self.n = 0
+        self.k = -1
+        self.hard = False
+        self.sql = True        # count SQL calls
+        self.progress = True   # count progress callbacks
+        self.trace = []
+
+    def arm(self, k, hard=False, sql=True, progress=True):
+        self.n = 0
+        self.k = k
+        self.hard = hard
+        self.sql = sql
+        self.progress = progress
+
+    def disarm(self):
+        self.k = -1
+
+    def tick(self, kind):
+        if self.k < 0:
+            return
+        if (kind == 'sql' and not self.sql) or (kind == 'progress' and not self.progress):
+            return
+        self.n += 1
+        if self.n == self.k:
+            self.k = -1
+            if kind == 'sql' and not self.hard:
+                import sqlite3
+                raise sqlite3.OperationalError('injected: statement denied')
+            raise (HardBoom if self.hard else Boom)()
+
+    def progress_class(self):
+        from wn.util import ProgressHandler
+        faults = self
+
+        class FaultyProgress(ProgressHandler):
+            def update(self, n=1, force=False):
+                faults.tick('progress')
+
+            def set(self, **kwargs):
+                faults.tick('progress')
+
+            def flash(self, message):
+                faults.tick('progress')
+
+            def close(self):
+                pass
+        return FaultyProgress
+
+
+class _ProxyCursor:
+    def __init__(self, cur, faults):
+        self._c = cur
+        self._f = faults
+
+    def execute(self, sql, params=()):
+        if not sql.lstrip().upper().startswith('PRAGMA'):
+            self._f.tick('sql')
+        self._c.execute(sql, params)
+        return self
+
+    def executemany(self, sql, seq):
+        seq = list(seq)
+        self._f.tick('sql')
+        self._c.executemany(sql, seq)
+        return self
+
+    def __iter__(self):
+        return iter(self._c)
+
+    def __next__(self):
+        return next(self._c)
+
+    def __getattr__(self, name):
+        return getattr(self._c, name)
+
+
+class _ProxyConn:
+    def __init__(self, conn, faults):
+        self._c = conn
+        self._f = faults
+
+    def cursor(self):
+        return _ProxyCursor(self._c.cursor(), self._f)
+
+    def execute(self, sql, params=()):
+        return _ProxyCursor(self._c.cursor(), self._f).execute(sql, params)
+
+    def executemany(self, sql, seq):
+        return _ProxyCursor(self._c.cursor(), self._f).executemany(sql, seq)
+
+    def __enter__(self):
+        self._c.__enter__()
+        return self
+
+    def __exit__(self, *a):
+        return self._c.__exit__(*a)
+
+    def __getattr__(self, name):
+        return getattr(self._c, name)
+
+
+def fault_db():
+    """(DB, Faults): a fresh database whose connection counts / fails SQL calls."""
+    db = DB()
+    f = Faults()
+    if SYM:
+        def hook(kind, sql):
+            if kind != 'pragma':
+                f.tick('sql')
+        db.conn.hook = hook
+    else:
+        import wn
+        import wn._db
+        proxy = _ProxyConn(db.conn, f)
+        wn._db.pool[wn.config.database_path] = proxy
+        db.raw = db.conn
+        db.conn = proxy
+    return db, f
